@@ -258,6 +258,7 @@ Proof.
   - reflexivity.
   - reflexivity.
   - reflexivity.
+  - destruct (zmem _ _); [destruct (Nat.eqb _ _)|]; reflexivity.
 Qed.
 
 Lemma fresh_list_above N h acts : fresh_list acts = true -> Forall (act_above N h) acts.
